@@ -92,6 +92,9 @@ _REQUEST_TARGET_FORBIDDEN_RE: Final[Pattern[str]] = re.compile(r"[\x00-\x20\x7f]
 VERSRE: Final[Pattern[str]] = re.compile(r"HTTP/(\d)\.(\d)", re.ASCII)
 DIGITS: Final[Pattern[str]] = re.compile(r"\d+", re.ASCII)
 HEXDIGITS: Final[Pattern[bytes]] = re.compile(rb"[0-9a-fA-F]+")
+_CHUNK_EXT_FORBIDDEN_CTL_RE: Final[Pattern[bytes]] = re.compile(
+    rb"[\x00-\x08\x0a-\x1f\x7f]"
+)
 
 # RFC 9110 singleton headers — duplicates are rejected in strict mode.
 # In lax mode (response parser default), the check is skipped entirely
@@ -1007,10 +1010,12 @@ class HttpPayloadParser:
                         i = chunk.find(CHUNK_EXT, 0, pos)
                         if i >= 0:
                             size_b = chunk[:i]  # strip chunk-extensions
-                            # Verify no LF in the chunk-extension
-                            if b"\n" in (ext := chunk[i:pos]):
+                            # Verify no LF or other control character in the
+                            # chunk-extension (a bare CR is a line terminator for
+                            # some intermediaries)
+                            if _CHUNK_EXT_FORBIDDEN_CTL_RE.search(ext := chunk[i:pos]):
                                 exc = TransferEncodingError(
-                                    f"Unexpected LF in chunk-extension: {ext!r}"
+                                    f"Unexpected control character in chunk-extension: {ext!r}"
                                 )
                                 set_exception(self.payload, exc)
                                 raise exc
